@@ -94,7 +94,13 @@ func drawFault(tp *tape.Tape, fresh func() string) fault {
 		return f
 	}
 	wrap := func(failing string) (string, string) {
-		switch tp.Draw(3) {
+		switch tp.Draw(5) {
+		case 3: // the statement writes before it fails: what it wrote belongs to it, not to a later statement
+			w := fmt.Sprintf("write(\"w%s;\")", x)
+			return "{\n" + w + "\n" + y + " = " + failing + "\nwrite(\"never\")\n}", w
+		case 4: // writes from inside a function and a loop, then fails at depth
+			w := fmt.Sprintf("for %s <- fromto(0, 2) {\nwrite(\"l\" + toa(%s))\n}", x, x)
+			return "{\n" + w + "\n" + failing + "\n}", w
 		case 0: // bare failing assignment, nothing completed
 			return y + " = " + failing, ""
 		case 1: // block with completed prefix
